@@ -92,11 +92,12 @@ static std::function<void(const int &)> makeSlot(Sig &sig, const std::string &ki
 }
 
 // returns the id; *cell receives it for slots that need their own id
-static uint64_t connectLogged(Sig &sig, const std::string &kind, int w, bool scoped, Sig::ScopedConnection *out)
+static uint64_t connectLogged(Sig &sig, const std::string &kind, int w, bool scoped, Sig::ScopedConnection *out, const std::string &hk = "")
 {
   int c = ++g_call, g = ++g_tag;
   ++g_connects;
-  g_tr->add(vf::Ev("Call").str("t", t_name).i("c", c).str("op", "connect").i("g", g).i("w", kind == "weak" ? w : 0).str("kind", kind));
+  const char *opn = scoped ? "sconn" : "connect";
+  g_tr->add(vf::Ev("Call").str("t", t_name).i("c", c).str("op", opn).i("g", g).i("w", kind == "weak" ? w : 0).str("kind", kind).str("h", hk));
   uint64_t id = 0;
   if (kind == "weak")
   {
@@ -109,24 +110,30 @@ static uint64_t connectLogged(Sig &sig, const std::string &kind, int w, bool sco
     id = sig.connect(makeSlot(sig, kind, g, cell));
     cell->store(id);
   }
-  if (scoped && out) *out = Sig::ScopedConnection(&sig, id);
-  g_tr->add(vf::Ev("Ret").str("t", t_name).i("c", c).str("op", "connect").i("id", (long long)id));
+  if (scoped && out)
+  {
+    *out = Sig::ScopedConnection(&sig, id); // move-assignment over an empty ScopedConnection
+    id = out->id();
+  }
+  g_tr->add(vf::Ev("Ret").str("t", t_name).i("c", c).str("op", opn).i("id", (long long)id));
   return id;
 }
 static uint64_t doConnect(Sig &sig, const std::string &kind, int w) { return connectLogged(sig, kind, w, false, nullptr); }
 
-// ScopedConnection operations that must amount to disconnect(id held)
-template <class F> static void scopedDisconnect(Sig::ScopedConnection &sc, F &&f)
+// ScopedConnection operations are logged by NAME and handle; what they must do to the signal is SignalTrace.tla's business
+template <class F> static void scopedOp(const char *op, const std::string &h, const std::string &h2, F &&f)
 {
   int c = ++g_call;
-  g_tr->add(vf::Ev("Call").str("t", t_name).i("c", c).str("op", "disconnect").i("id", (long long)sc.id()));
-  f();
-  g_tr->add(vf::Ev("Ret").str("t", t_name).i("c", c).str("op", "disconnect"));
+  g_tr->add(vf::Ev("Call").str("t", t_name).i("c", c).str("op", op).str("h", h).str("h2", h2));
+  long long rv = f();
+  g_tr->add(vf::Ev("Ret").str("t", t_name).i("c", c).str("op", op).i("id", rv));
 }
 
 struct Hands
 {
+  std::string owner;
   std::unique_ptr<Sig::ScopedConnection> sc[5];
+  std::string key(int h) const { return owner + std::to_string(h); }
 };
 
 static const char *KINDS[] = {"plain", "selfdisc", "killnext", "connector", "thrower", "reemit", "weak"};
@@ -195,31 +202,30 @@ static void runOp(Sig &sig, Hands &H, const xc::Op &op)
   else if (op.op == "sconn")
   {
     if (a0 < 1 || a0 > 4) return;
-    if (H.sc[a0]) scopedDisconnect(*H.sc[a0], [&] { H.sc[a0].reset(); });
+    if (H.sc[a0]) scopedOp("sdrop", H.key(a0), "", [&] { H.sc[a0].reset(); return 0; });
     H.sc[a0] = std::make_unique<Sig::ScopedConnection>();
-    connectLogged(sig, KINDS[a1 % 7], 0, true, H.sc[a0].get()); // (move-assignment over an empty ScopedConnection: no disconnect)
+    connectLogged(sig, KINDS[a1 % 7], 0, true, H.sc[a0].get(), H.key(a0));
   }
   else if (op.op == "sdrop")
   {
     if (a0 < 1 || a0 > 4 || !H.sc[a0]) return;
-    scopedDisconnect(*H.sc[a0], [&] { H.sc[a0].reset(); });
+    scopedOp("sdrop", H.key(a0), "", [&] { H.sc[a0].reset(); return 0; });
   }
   else if (op.op == "sreset")
   {
     if (a0 < 1 || a0 > 4 || !H.sc[a0]) return;
-    scopedDisconnect(*H.sc[a0], [&] { H.sc[a0]->reset(); });
+    scopedOp("sreset", H.key(a0), "", [&] { H.sc[a0]->reset(); return (long long)H.sc[a0]->id(); });
   }
   else if (op.op == "srel")
   {
     if (a0 < 1 || a0 > 4 || !H.sc[a0]) return;
-    H.sc[a0]->release(); // gives up ownership: no disconnect now, none at destruction
+    scopedOp("srel", H.key(a0), "", [&] { return (long long)H.sc[a0]->release(); });
   }
   else if (op.op == "smove")
   {
     if (a0 < 1 || a0 > 4 || a1 < 1 || a1 > 4 || a0 == a1 || !H.sc[a0]) return;
     if (!H.sc[a1]) H.sc[a1] = std::make_unique<Sig::ScopedConnection>();
-    scopedDisconnect(*H.sc[a1], [&] { *H.sc[a1] = std::move(*H.sc[a0]); });
-    H.sc[a0].reset(); // moved-from: owns nothing, must not disconnect (would be an unlogged disconnect of the moved id)
+    scopedOp("smove", H.key(a0), H.key(a1), [&] { *H.sc[a1] = std::move(*H.sc[a0]); return (long long)H.sc[a1]->id(); });
   }
 }
 
@@ -244,6 +250,7 @@ static std::string runOne(const Case &c, const vf::Options &opt, bool emitSched)
               for (int w = 0; w < 3; ++w) g_targets[w] = std::make_shared<Listener>(w);
               auto *sig = new Sig();
               std::vector<Hands> hands(c.prog.size());
+              for (size_t i = 0; i < c.prog.size(); ++i) hands[i].owner = c.prog[i].name;
               std::vector<std::thread> th;
               for (size_t i = 0; i < c.prog.size(); ++i)
               {
@@ -264,7 +271,7 @@ static std::string runOne(const Case &c, const vf::Options &opt, bool emitSched)
               // remaining ScopedConnections disconnect at destruction; then one last emit shows what is still connected
               for (auto &H : hands)
                 for (int h = 1; h <= 4; ++h)
-                  if (H.sc[h]) scopedDisconnect(*H.sc[h], [&] { H.sc[h].reset(); });
+                  if (H.sc[h]) scopedOp("sdrop", H.key(h), "", [&] { H.sc[h].reset(); return 0; });
               doEmit(*sig);
               {
                 int cc = ++g_call;
